@@ -42,7 +42,7 @@ def cases(draw, nmax=20000):
     n = draw(st.one_of(st.integers(1, 60), st.integers(61, nmax)))
     seed = draw(st.integers(0, 2 ** 31 - 1))
     node0 = draw(st.sampled_from(["any", "isolated", "connected"]))
-    scale = draw(st.sampled_from(["none", "none", "const", "frame"]))
+    scale = draw(st.sampled_from(["none", "none", "const", "frame", "tiny"]))
     threads = draw(st.lists(st.sampled_from(THREADS), min_size=2, max_size=3, unique=True))
     return dict(kind=kind, n=n, seed=seed, node0=node0, scale=scale, threads=sorted(threads))
 
@@ -119,7 +119,9 @@ def build(case):
     shape = (2, (nfr + 1) // 2 + 1)
     omega = rng.uniform(-180, 180, shape)
     dty = rng.uniform(-50, 50, shape)
-    sf = {"none": None, "const": np.full(shape, 1.7), "frame": rng.uniform(0.5, 2.0, shape)}[case["scale"]]
+    sf = {"none": None, "const": np.full(shape, 1.7), "frame": rng.uniform(0.5, 2.0, shape),
+          # normalisation to a monitor that counts millions: merged intensities far below one
+          "tiny": rng.uniform(0.5, 2.0, shape) * 2.0 ** -24}[case["scale"]]
     return n, ei.astype(np.int64), ej.astype(np.int64), pk, omega, dty, sf
 
 
